@@ -69,7 +69,7 @@ inline double sum(const float* d, size_t n) { double s = 0; for (size_t i = 0; i
 inline bool all_finite(const float* d, size_t n) { for (size_t i = 0; i < n; i++) if (!std::isfinite(d[i])) return false; return true; }
 
 // the displacement alphabet shared by C01/C02/C08/C15: whole, fractional, both signs, tiny fractions,
-// near-whole values; -n/2 <= a < n/2 (the range the offset table represents; larger kicks are "beyond the grid")
+// near-whole values, displacements of half the grid and more, and kicks beyond the grid
 inline std::vector<float> alphabet(unsigned n) {
     const float m = float(n / 2) - 2;
     std::vector<float> a = {0.f, 1.f, -1.f, 2.f, -2.f, m, -m, 0.25f, -0.25f, 0.5f, -0.5f, 0.75f, -0.75f, 1.5f, -1.5f,
@@ -77,7 +77,10 @@ inline std::vector<float> alphabet(unsigned n) {
                             5.9604645e-8f, -5.9604645e-8f, 0.99999994f, -0.99999994f, m - 0.5f, -(m - 0.5f), 2.3125f, -1.6875f,
                             0.333333343f, -0.666666687f, 5e-4f, 1.0005f, -1.9997f, 0.9995f, -0.0005f,
                             // up to the ends of the range the offset table can encode, [-n/2, n/2)
-                            m + 1.f, -(m + 1.f), m + 1.5f, -(m + 1.5f), m + 1.99f, -(m + 2.f), m + 0.75f, -(m + 1.25f)};
+                            m + 1.f, -(m + 1.f), m + 1.5f, -(m + 1.5f), m + 1.99f, -(m + 2.f), m + 0.75f, -(m + 1.25f),
+                            // half the grid and more (a blob near one border is moved towards the other; zeros flow in behind it), just beyond -n/2, and beyond the grid
+                            m + 2.f, m + 2.3f, -(m + 2.3f), -(m + 2.7f), -(m + 3.f), m + 3.5f, float(n) - 3.f, -(float(n) - 3.f), float(n) - 2.25f, -(float(n) - 1.5f),
+                            float(n) + 2.f, -(float(n) + 0.5f), 2.5f * n};
     return a;
 }
 
